@@ -76,6 +76,12 @@ theorem aerase_of_alookup_none {k : κ} {l : List (κ × α)} (h : alookup k l =
     · cases h
     · rename_i h1; rw [aerase_cons, if_neg h1, ih h]
 
+theorem alookup_aerase_some {k k' : κ} {l : List (κ × α)} {v : α} (h : alookup k' (aerase k l) = some v) :
+    k' ≠ k ∧ alookup k' l = some v := by
+  by_cases hk : k' = k
+  · subst hk; rw [alookup_aerase_self] at h; cases h
+  · rw [alookup_aerase_ne hk] at h; exact ⟨hk, h⟩
+
 end alist
 
 /-! ### list-sets -/
@@ -124,6 +130,22 @@ theorem ccOf_ainsert_self (R : List ((Nat × Nat) × Nat)) (k : Nat × Nat) (v :
 theorem ccOf_ainsert_ne (R : List ((Nat × Nat) × Nat)) {k k' : Nat × Nat} (h : k' ≠ k) (v : Nat) :
     ccOf (ainsert k v R) k' = ccOf R k' := by
   simp [ccOf, alookup_ainsert_ne h]
+
+/-- what a Note On (velocity 64) of the emulation does at the receiver -/
+theorem recv_noteOn64 {ch : Nat} (h : ch < 16) (s : List (Nat × Nat)) (n : Nat) :
+    recv s (noteEvent stNoteOn ch n 64) = sinsert (ch, n) s := by
+  rw [noteOn_eq_noteOn64 h]
+  have h1 : (0x90 + ch) / 16 = 9 := by omega
+  have h2 : (0x90 + ch) % 16 = ch := by omega
+  simp [noteOn64, recv, h1, h2]
+
+/-- what a Note Off of the emulation does at the receiver -/
+theorem recv_noteOff {ch : Nat} (h : ch < 16) (s : List (Nat × Nat)) (n : Nat) :
+    recv s (noteEvent stNoteOff ch n 0) = serase (ch, n) s := by
+  rw [noteOff_eq_noteOffMsg h]
+  have h1 : (0x80 + ch) / 16 = 8 := by omega
+  have h2 : (0x80 + ch) % 16 = ch := by omega
+  simp [noteOffMsg, recv, h1, h2]
 
 /-! ### the constant 0.49 -/
 
@@ -211,6 +233,36 @@ theorem on_out_mem (d : Dev) (id : Code × Bool) (note off : Nat) (o : Out)
   · simp at h
   · exact ⟨_, _, by simpa using h⟩
 
+theorem on_out_mem' (d : Dev) (id : Code × Bool) (note off : Nat) (o : Out)
+    (h : o ∈ (d.analogNoteOn id note off).2) : ∃ ch n, ch < 16 ∧ n ≤ 127 ∧ o = noteEvent stNoteOn ch n 64 := by
+  rw [analogNoteOn_def] at h
+  split at h
+  · simp at h
+  · rename_i hr
+    refine ⟨chanOf d.channel off, (d.transposed note).toNat, chanOf_lt _ _, by omega, by simpa using h⟩
+
+/-- whatever `analogNoteOn` leaves in the tracker was there before or is a valid (note, channel) -/
+theorem on_lookup_some (d : Dev) (id id' : Code × Bool) (note off : Nat) (n ch : Nat)
+    (h : alookup id' (d.analogNoteOn id note off).1.anaTr = some (n, ch)) :
+    alookup id' d.anaTr = some (n, ch) ∨ (n ≤ 127 ∧ ch < 16) := by
+  rw [analogNoteOn_def] at h
+  split at h
+  · exact Or.inl h
+  · rename_i hr
+    by_cases hk : id' = id
+    · subst hk
+      simp only [alookup_ainsert_self, Option.some.injEq, Prod.mk.injEq] at h
+      right
+      refine ⟨?_, h.2 ▸ chanOf_lt _ _⟩
+      omega
+    · simp only [alookup_ainsert_ne hk] at h
+      exact Or.inl h
+
+theorem off_lookup_some (d : Dev) (id id' : Code × Bool) (p : Nat × Nat)
+    (h : alookup id' (d.analogNoteOff id).1.anaTr = some p) : alookup id' d.anaTr = some p := by
+  rw [off_anaTr] at h
+  exact (alookup_aerase_some h).2
+
 /-- a Note Off of the emulation is never a Note On with non-zero velocity -/
 theorem noteOff_ne_noteOn (ch n ch' n' v : Nat) (hv : v ≠ 0) :
     noteEvent stNoteOff ch n 0 ≠ noteEvent stNoteOn ch' n' v := by
@@ -230,6 +282,30 @@ theorem releaseAxis_frame (d : Dev) (code : Code) :
   rw [releaseAxis_eq]
   simp only
   rw [off_frame (d.analogNoteOff (code, false)).1, off_frame d]
+
+theorem releaseAxis_out (d : Dev) (code : Code) :
+    (d.releaseAxis code).2 =
+      (match alookup (code, false) d.anaTr with
+       | some (n, ch) => [noteEvent stNoteOff ch n 0]
+       | none => []) ++
+      (match alookup (code, true) d.anaTr with
+       | some (n, ch) => [noteEvent stNoteOff ch n 0]
+       | none => []) := by
+  rw [releaseAxis_eq]
+  simp only
+  rw [off_out, off_out, off_lookup_ne d (by simp : ((code, true) : Code × Bool) ≠ (code, false))]
+
+theorem releaseAxis_out_mem (d : Dev) (code : Code) (o : Out) (h : o ∈ (d.releaseAxis code).2) :
+    ∃ id ∈ [((code, false) : Code × Bool), (code, true)], ∃ n ch,
+      alookup id d.anaTr = some (n, ch) ∧ o = noteEvent stNoteOff ch n 0 := by
+  rw [releaseAxis_eq] at h
+  simp only [List.mem_append] at h
+  rcases h with h | h
+  · obtain ⟨n, ch, h1, h2⟩ := off_out_mem _ _ _ h
+    exact ⟨_, by simp, n, ch, h1, h2⟩
+  · obtain ⟨n, ch, h1, h2⟩ := off_out_mem _ _ _ h
+    rw [off_lookup_ne d (by simp : ((code, true) : Code × Bool) ≠ (code, false))] at h1
+    exact ⟨_, by simp, n, ch, h1, h2⟩
 
 theorem pos_ne_neg (code : Code) : ((code, false) : Code × Bool) ≠ (code, true) := by simp
 theorem neg_ne_pos (code : Code) : ((code, true) : Code × Bool) ≠ (code, false) := by simp
